@@ -118,9 +118,15 @@ fn queries(case: &MapCase) -> Vec<Q> {
     for c in u.other_classes.iter().take(5) {
         qs.push(Q::Class(c.clone()));
     }
-    let extra = derive_extra(&u, case.key, 4, 0, 6);
+    // many *distinct* keys per kind, so that any memo / cache layer inside the handles sees concurrent first-time
+    // inserts while other threads read
+    let extra = derive_extra(&u, case.key, 24, 0, 160);
     qs.extend(extra.texts.into_iter().map(Q::Text));
     qs.extend(extra.sigs.into_iter().map(Q::Sig));
+    for i in 0..40 {
+        qs.push(Q::Class(format!("zz.unknown.C{i}")));
+        qs.push(Q::Sig(format!("(I[Lzz/U{i};J)La/a;")));
+    }
     qs
 }
 
@@ -133,19 +139,23 @@ fn xorshift(x: &mut u64) -> u64 {
 
 fn check_case(case: &MapCase, st: &mut Stats) -> Check {
     let bytes = case.bytes();
-    let m = mapper(&bytes, true)?;
     let buf = write_cache(&bytes)?;
-    let cache = parse_cache(&buf)?;
     let qs = queries(case);
     if qs.is_empty() {
         return Ok(());
     }
-    let impls: [(&str, &(dyn Retracer + Sync)); 2] = [("mapper", &m), ("cache", &cache)];
-    for (name, r) in impls {
-        // single-threaded transcript
-        let alone: Vec<u64> = qs.iter().map(|q| answer(r, q)).collect();
-        let n_nonempty = qs.iter().filter(|q| nonempty(r, q)).count();
+    for name in ["mapper", "cache"] {
+        // single-threaded transcript, taken on its own instance: the instances queried concurrently below are
+        // fresh (never queried before), so lazily filled internal state starts cold under contention
+        let alone_m = mapper(&bytes, true)?;
+        let alone_c = parse_cache(&buf)?;
+        let alone_r: &(dyn Retracer + Sync) = if name == "mapper" { &alone_m } else { &alone_c };
+        let alone: Vec<u64> = qs.iter().map(|q| answer(alone_r, q)).collect();
+        let n_nonempty = qs.iter().filter(|q| nonempty(alone_r, q)).count();
         for threads in [2usize, 3, 4, 8, 16] {
+            let fresh_m = mapper(&bytes, true)?;
+            let fresh_c = parse_cache(&buf)?;
+            let r: &(dyn Retracer + Sync) = if name == "mapper" { &fresh_m } else { &fresh_c };
             let barrier = Barrier::new(threads);
             let rounds = 3;
             let bad: Vec<Option<(usize, u64)>> = std::thread::scope(|sc| {
@@ -157,10 +167,13 @@ fn check_case(case: &MapCase, st: &mut Stats) -> Check {
                         let key = case.key;
                         sc.spawn(move || {
                             let mut seed = fnv_mix(key, &[t as u8, threads as u8]) | 1;
-                            // every thread owns a slice and also re-asks a quarter of its neighbours' queries
-                            let mut mine: Vec<usize> = (0..qs.len()).filter(|i| i % threads == t || (i + 1) % (threads * 4) == t).collect();
+                            // round 0: every thread asks everything (cold start, maximal overlap); later rounds: every thread
+                            // owns a slice and also re-asks a quarter of its neighbours' queries
+                            let all: Vec<usize> = (0..qs.len()).collect();
+                            let slice: Vec<usize> = (0..qs.len()).filter(|i| i % threads == t || (i + 1) % (threads * 4) == t).collect();
                             let mut first_bad = None;
-                            for _round in 0..rounds {
+                            for round in 0..rounds {
+                                let mut mine = if round == 0 { all.clone() } else { slice.clone() };
                                 // seeded permutation
                                 for i in (1..mine.len()).rev() {
                                     let j = (xorshift(&mut seed) % (i as u64 + 1)) as usize;
@@ -189,7 +202,7 @@ fn check_case(case: &MapCase, st: &mut Stats) -> Check {
                     .collect();
                 hs.into_iter().map(|h| h.join().unwrap_or(Some((usize::MAX, 0)))).collect()
             });
-            st.evaluations += (qs.len() * rounds) as u64;
+            st.evaluations += (qs.len() * (threads + rounds - 1)) as u64;
             if n_nonempty >= 2 {
                 st.nontrivial(fnv_mix(case.hash(), &[threads as u8, name.len() as u8]));
             }
@@ -242,7 +255,7 @@ fn main() {
         }
     }
     let mut rep = Report::new("C20", "exploration", &ctx);
-    rep.rule = "Static part (enumerated by the compiler): Send + Sync assertions for ProguardMapper, ProguardMapping, ProguardCache, ProguardRecordIter, ProguardRecord, RemappedFrameIter, the cache's frame iterator (on the value), StackFrame, StackTrace, Throwable, DeobfuscatedSignature, CacheError, CacheErrorKind, ParseError, LineMapping, MappingSummary; mapper and cache are also moved into another thread. Dynamic part: generated mappings x the query universe (class, method, frame by line, frame by params, text traces, signatures) issued from T in {2,3,4,8,16} threads sharing one &ProguardMapper and one &ProguardCache; every thread runs a seeded permutation of its (overlapping) batch with seeded yield/spin perturbation, 3 rounds from a barrier; every answer is compared with the single-threaded transcript. evaluations = queries issued concurrently. Non-trivial = distinct (mapping, implementation, thread count) runs in which >=2 queries with non-empty answers were issued concurrently.".into();
+    rep.rule = "Static part (enumerated by the compiler): Send + Sync assertions for ProguardMapper, ProguardMapping, ProguardCache, ProguardRecordIter, ProguardRecord, RemappedFrameIter, the cache's frame iterator (on the value), StackFrame, StackTrace, Throwable, DeobfuscatedSignature, CacheError, CacheErrorKind, ParseError, LineMapping, MappingSummary; mapper and cache are also moved into another thread. Dynamic part: generated mappings x the query universe (class, method, frame by line, frame by params, text traces, signatures) incl. ~200 distinct signature strings, 24 distinct trace texts and 40 unknown class names per mapping (so that any memo/cache layer sees concurrent first-time inserts), issued from T in {2,3,4,8,16} threads sharing one fresh (never queried) &ProguardMapper / &ProguardCache per thread count; round 0: every thread asks every query in its own seeded order; rounds 1-2: overlapping slices; seeded yield/spin perturbation, every round starts from a barrier; every answer is compared with the transcript of a separate instance queried alone. evaluations = queries issued concurrently. Non-trivial = distinct (mapping, implementation, thread count) runs in which >=2 queries with non-empty answers were issued concurrently.".into();
     rep.assumptions = vec!["the harness does not own the schedule: interleavings are sampled by real threads, not enumerated".into(), "the static assertions carry most of the weight: Rc/RefCell/Cell-style interior mutability fails to compile".into()];
     let n_static = static_assertions() + static_assertions_values();
     rep.stats.class_n("static Send+Sync assertions compiled", n_static as u64);
